@@ -325,6 +325,8 @@ def run(chk):
                 and c['s']['powerMode'] and c['s']['padding'] > 0 and c['s']['eol'] == 0]
         picked = list(kinds.values()) + mesh[chk.seed % 2::2] + \
             [c for c in more[chk.seed % stride::stride] if c not in mesh]
+    # the EOL drift is a recorded finding; its C+L instances would only add more signatures of it
+    picked = [c for c in picked if not (c['s'].get('bands', 1) == 2 and c['s']['eol'] > 0)]
     picked.sort(key=lambda c: not any(e['t'] == 'RamanFiber' for e in c['g']))      # the slow (Raman) life cycles first
     du.reset_sim()
     du.equipment_base('example-data'), du.equipment_base('tests-data'), du.equipment_base('variant')        # parsed once, inherited by the workers
@@ -346,6 +348,7 @@ def run(chk):
                             propagation=[e['r'] for e in t['ev'] if e['op'] == 'Propagate']))
     # ---- B2 (a'): the same design in processes with different histories (another library used before)
     hist_cases = [c for c in two if c['s']['eol'] == 0 and c['s']['maxLen'] > 100000 and c['s'].get('insert', True)
+                  and c['s'].get('bands', 1) == 1 and not c['s'].get('power')      # the other libraries are single band
                   and not any(e['t'] == 'RamanFiber' for e in c['g']) and (tier == 'thorough' or plain(c))]
     if tier == 'quick':
         hk = {}
@@ -410,13 +413,17 @@ def run(chk):
     chk.cov['tolerance_udb'] = 10
     chk.cov['measured_max_export_deviation_udb'] = measured(traces + t3, 'Export')
     chk.cov['measured_max_propagation_deviation_udb'] = measured(traces + t3, 'Propagate')
-    chk.assume('domain: the topologies and Span settings enumerated for C08; 2-ROADM shape: every chain kind x the '
-               'strength-3 half fraction of the 16 Span settings (quick) / all 16 (thorough); 3-4 ROADM shapes: every '
-               '7th (quick) / 5th (thorough) case; SI of eqpt_config.json; exports pass through JSON text')
+    chk.assume('domain: the topologies and Span settings enumerated for C08 (spec/MC_DesignStructure.tla); thorough: every '
+               '2-ROADM case and every 5th larger one; quick: one life cycle per chain kind under the 150 km quarter of the '
+               'settings (two EOL = 0 settings when no user gain/VOA is involved), every other triangle, few Raman '
+               'chains; exports pass through JSON text; one deep-copied equipment object per life cycle')
+    chk.assume('twin designs: (1) same process after a design with args_power on the same library object, (2) a new '
+               'forked process that first designed with other libraries defining the same amplifier names, (3) new '
+               'interpreters with PYTHONHASHSEED 1, 2, 3 (multiband cases)')
     chk.assume('export comparison: same elements (uid, type), same string leaves, numeric leaves within 10 micro units '
                '(micro-dB for every dB quantity), same connections; the twin design must be identical')
-    chk.assume('reference propagation: SI comb between the first connected transceiver pair, GSNR/OSNR/power of first, '
-               'middle, last channel; d1 vs reloaded d2 is allowed 1 micro-dB per amplifier crossed on top of 10 '
+    chk.assume('reference propagation: SI comb between the first connected transceiver pair (route left to the path '
+               'computation), GSNR/OSNR/power/PMD/CD/latency/PDL of first, middle, last channel; d1 vs reloaded d2 is allowed 1 micro-dB per amplifier crossed on top of 10 '
                '(the export rounds gains to 1e-6 dB: <= 0.5 micro-dB each), later rounds 10 micro-dB')
     chk.assume('SimParams snapshots compare flag, method, order, both resolutions, NLI method, tolerances, '
                'computed_channels, computed_number_of_channels by value')
